@@ -99,6 +99,12 @@ class UnitRows(Fam):
             stale = rng.choice([11, 12, 13, 14, 15, 99])
             for r in rows:
                 r["unit_id"] = stale
+        if len(rows) >= 2 and rng.random() < 0.04:
+            # a column whose plain values differ in kind (a number in one row, text in another): the Arrow writer refuses such a
+            # bundle; the refusal has to be reported, and nothing may be stored in an altered form instead
+            for i, r in enumerate(rows):
+                r["value"] = (tok + i) if i % 2 == 0 else f"lit{tok}_{i}"
+            return {"rows": rows, "mixed": True}
         return {"rows": rows}
 
     def build(self, key, desc):
